@@ -197,8 +197,8 @@ CHECKS["C11"] = dict(
 CHECKS["C07"] = dict(
     src="C07.cpp", level="model_checking",
     entries=[
-        dict(name="harness_c07_trees", quick={"depth": 1}, thorough={"depth": 2, "_wall": 1700}),
-        dict(name="harness_c07_powers", quick={"B": 16, "cmax": 8, "nexp": 7}, thorough={"B": 400, "cmax": 100}),
+        dict(name="harness_c07_trees", quick={"depth": 1}, thorough={"depth": 2, "_wall": 1700}, thorough_ok=True),
+        dict(name="harness_c07_powers", quick={"B": 16, "cmax": 8, "nexp": 7}, thorough={"B": 400, "cmax": 100}, thorough_ok=True),
     ],
     anchors=["SymEngine::pow(", "SymEngine::Mul::power_num", "SymEngine::Mul::dict_add_term_new", "SymEngine::Rational::powrat", "SymEngine::Integer::pow"],
     bounds="arithmetic trees of depth <= 1 (2) over {x, y, positive p, numbers 2,-1/2,3,-4, a symbolic integer} with neg, integer powers (2,3,-1,-2,0), rational powers of p, sqrt, + - * /; power rewrites (c p^a q^b)^e with c = n/d (n<=20 (100) symbolic, d<=3), p^a p^b q^a, (p^a)^e, (n/d)^e p^a (perfect-power extraction, n<=40 (400)), p^a/p^b (1/p)^a (pq)^b with exponents from a table of 12 rationals: exact comparison of prime/symbol exponent vectors, valid for all positive p, q",
@@ -289,8 +289,8 @@ CHECKS["C04"] = dict(
 CHECKS["C39"] = dict(
     src="C39.cpp", level="model_checking",
     entries=[
-        dict(name="harness_c39_symbols", quick={"depth": 1, "symB": 1}, thorough={"depth": 2, "symB": 2, "_wall": 2400}),
-        dict(name="harness_c39_coeff", quick={"B": 2}, thorough={"B": 6}),
+        dict(name="harness_c39_symbols", quick={"depth": 1, "symB": 1}, thorough={"depth": 2, "symB": 2, "_wall": 2400}, thorough_ok=True),
+        dict(name="harness_c39_coeff", quick={"B": 2}, thorough={"B": 6}, thorough_ok=True),
     ],
     anchors=["SymEngine::free_symbols", "SymEngine::has_symbol", "SymEngine::function_symbols", "SymEngine::coeff"],
     bounds="operator trees of depth <= 1 (2) over {x, y, p, 2, -1/2, 0, 1, a symbolic integer |c|<=1 (2)} (slots that become 0 or 1 and cancelling terms make symbols disappear): free_symbols/has_symbol against an independent walk of the result tree, f(e), function_symbols; coeff(p,x,n) for p = a x^2 + b y x + c + y with symbolic a,b,c reconstructs p; single-term products k*x**n*y with a symbolic integer or half-integer k and n <= 3",
@@ -367,7 +367,7 @@ CHECKS["C30"] = dict(
 
 CHECKS["C31"] = dict(
     src="C31.cpp", level="model_checking",
-    entries=[dict(name="harness_c31", quick={"order": 4, "B": 1}, thorough={"order": 7, "B": 5, "_wall": 1700})],
+    entries=[dict(name="harness_c31", quick={"order": 4, "B": 1}, thorough={"order": 7, "B": 5, "_wall": 1700}, thorough_ok=True)],
     anchors=["SymEngine::series(", "SymEngine::UnivariateSeries", "SymEngine::SeriesBase"],
     bounds="f(c1 x + c2 x^2) for f in {exp, log(1+.), sin/cos, tan, atan, sinh/cosh, 1/(1+.), sqrt(1+.), (1+.)^3 exp} with c1 a symbolic integer |c1|<=1 (5) and c2 from {0,1,-2,3}, order 4 (7): the returned coefficients satisfy the defining differential/functional equation of each function as exact coefficient identities (exact rational arithmetic)",
     outside=["asin, lambertw, series reversion", "rational inner coefficients", "orders above 7"],
@@ -397,8 +397,8 @@ CHECKS["C36"] = dict(
 CHECKS["C35"] = dict(
     src="C35.cpp", level="model_checking",
     entries=[
-        dict(name="harness_c35_pow", quick={}, thorough={}),
-        dict(name="harness_c35_functions", quick={}, thorough={}),
+        dict(name="harness_c35_pow", quick={}, thorough={}, thorough_ok=True),
+        dict(name="harness_c35_functions", quick={}, thorough={}, thorough_ok=True),
     ],
     anchors=["SymEngine::RefineVisitor::bvisit(SymEngine::Pow", "SymEngine::refine", "SymEngine::simplify"],
     bounds="refine((x**k)**n) for k, n from a table of 10 rationals under {x real, x positive, x negative}: magnitude exponent and principal-branch phase (exact rational arithmetic modulo 2) of input and output for x > 0 and x < 0; refine and simplify of abs, sign, max, min, conjugate shapes under sign assumptions compared over all real x, y satisfying them",
@@ -408,7 +408,7 @@ CHECKS["C35"] = dict(
 
 CHECKS["C34"] = dict(
     src="C34.cpp", level="model_checking",
-    entries=[dict(name="harness_c34", quick={}, thorough={}), dict(name="harness_c34_real", quick={}, thorough={})],
+    entries=[dict(name="harness_c34", quick={}, thorough={}, thorough_ok=True), dict(name="harness_c34_real", quick={}, thorough={}, thorough_ok=True)],
     anchors=["SymEngine::is_zero", "SymEngine::is_positive", "SymEngine::is_negative", "SymEngine::is_nonnegative", "SymEngine::is_integer", "SymEngine::is_real", "SymEngine::Assumptions"],
     bounds="12 expression shapes over x, y (sums, products, squares, cubes, abs, affine forms with a constant -2..2) under every combination of {real, integer} x {no sign information, > 0, < 0, >= 0, <= 0, != 0} per symbol; every definite answer of is_zero, is_nonzero, is_positive, is_negative, is_nonnegative, is_nonpositive, is_real, is_integer is checked against the value at ALL real (or integer) x, y satisfying the assumptions; is_real of sqrt(u), u**(3/2), sqrt(u) + y for 9 radicands u (x, x+c, x*y, x**2, |x|, x**2+y**2, -x**2, c*x, |x|+c) against the sign of u",
     outside=["is_rational/is_irrational/is_algebraic/is_transcendental/is_finite/is_even/is_odd/is_polynomial", "rational-valued symbols", "transcendental functions"],
@@ -466,12 +466,12 @@ CHECKS["C15"] = dict(
 CHECKS["C08"] = dict(
     src="C08.cpp", level="model_checking",
     entries=[
-        dict(name="harness_c08_trig_shift", quick={"K": 5, "_opts": ["--fast-ms", "2000", "--slow-ms", "90000"]}, thorough={"K": 14, "_opts": ["--fast-ms", "2000", "--slow-ms", "120000"]}),
-        dict(name="harness_c08_trig_table", quick={"K": 26}, thorough={"K": 60}),
-        dict(name="harness_c08_inverse", quick={}, thorough={}),
-        dict(name="harness_c08_exact", quick={"B": 5}, thorough={"B": 12}),
-        dict(name="harness_c08_gamma", quick={"K": 5}, thorough={"K": 9}),
-        dict(name="harness_c08_special", quick={"pmax": 30}, thorough={"pmax": 60}),
+        dict(name="harness_c08_trig_shift", quick={"K": 5, "_opts": ["--fast-ms", "2000", "--slow-ms", "90000"]}, thorough={"K": 14, "_opts": ["--fast-ms", "2000", "--slow-ms", "120000"]}, thorough_ok=True),
+        dict(name="harness_c08_trig_table", quick={"K": 26}, thorough={"K": 60}, thorough_ok=True),
+        dict(name="harness_c08_inverse", quick={}, thorough={}, thorough_ok=True),
+        dict(name="harness_c08_exact", quick={"B": 5}, thorough={"B": 12}, thorough_ok=True),
+        dict(name="harness_c08_gamma", quick={"K": 5}, thorough={"K": 9}, thorough_ok=True),
+        dict(name="harness_c08_special", quick={"pmax": 30}, thorough={"pmax": 60}, thorough_ok=True),
     ],
     anchors=["SymEngine::sin(", "SymEngine::trig_simplify", "SymEngine::get_pi_shift", "SymEngine::asin(", "SymEngine::floor(", "SymEngine::gamma(", "SymEngine::beta(", "SymEngine::zeta(", "SymEngine::primepi", "SymEngine::levi_civita"],
     bounds="sin, cos, tan, cot, sec, csc of +-x + k*pi/6 for a symbolic integer |k|<=5 (14) against the addition formulas at every real x; the special-angle table: sin/cos/tan/cot/sec/csc of k*pi/12 for symbolic |k|<=26 (60) must satisfy sin^2+cos^2=1, the double- and triple-angle relations, the quadrant signs and the pole positions (exact algebraic numbers, decided by nlsat); asin..acsc at 18 table values: f(finv(v))==v and principal ranges; floor/ceiling/truncate/abs/sign of symbolic rationals n/d |n|<=5 (12), d<=4, conjugate/abs of Gaussian integers, max/min of three exact numbers, kronecker_delta, levi_civita on {0,1,2}^3; gamma at k/2 |k|<=5 (9): poles, recurrence, gamma(1/2)^2==pi; beta(x,y)*gamma(x+y)==gamma(x)*gamma(y) incl. the pole cases; zeta(-n), zeta(2m), dirichlet_eta, erf/erfc parity, log(p/q), exp/lambertw special values, primepi/primorial up to 30 (60)",
